@@ -117,7 +117,8 @@ class Shadow:
 def foreign_workload(rng, ctx):
     """ Replay a case of another property's workload under the L1 hook. """
     import importlib
-    pid = ["c04", "c06", "c07", "c10", "c18", "c05", "c02"][ctx.index // 13 % 7]
+    pid = ["c04", "c06", "c07", "c10", "c18", "c05", "c02", "c16", "c17",
+           "c13", "c09"][ctx.index // 13 % 11]
     if pid not in _OTHERS:
         mod = importlib.import_module("verif.props." + pid)
         shadow = Shadow(ctx, pid.upper())
